@@ -50,8 +50,58 @@ MUTANTS = [
      "            if let Some(jump_placeholder) = arm_end_jump_placeholder {\n                self.update_offset_placeholder(jump_placeholder)?;\n            }\n",
      "            if let Some(jump_placeholder) = arm_end_jump_placeholder {\n                if last_arm_is_else {\n                    self.update_offset_placeholder(jump_placeholder)?;\n                }\n            }\n"),
     ("jump-as-u16-again", "C05", "R-JUMP-CHECKED", "update_offset_placeholder", "crates/bytecode/src/compiler.rs",
-     "        match u16::try_from(offset) {\n            Ok(offset_u16) => {",
-     "        match Ok::<u16, ()>(offset as u16) {\n            Ok(offset_u16) => {"),
+     "        let offset = self.bytes.len() - offset_ip - 2; // -2 bytes for u16\n        match u16::try_from(offset) {\n            Ok(offset_u16) => {",
+     "        let offset = self.bytes.len() - offset_ip - 2; // -2 bytes for u16\n        match Ok::<u16, ()>(offset as u16) {\n            Ok(offset_u16) => {"),
+    ("enc-extra-operand", "C05", "R-ENC", "compile_node", "crates/bytecode/src/compiler.rs",
+     "                    self.push_op(SetNull, &[result]);\n                }\n                result\n            }\n            Node::Nested",
+     "                    self.push_op(SetNull, &[result, 0]);\n                }\n                result\n            }\n            Node::Nested"),
+    ("enc-reader-shorter", "C05", "R-ENC", "", "crates/bytecode/src/instruction_reader.rs",
+     "            Op::RangeTo => RangeTo {\n                register: byte_a,\n                end: get_u8!(),\n            },",
+     "            Op::RangeTo => RangeTo {\n                register: byte_a,\n                end: byte_a,\n            },"),
+    ("enc-var-as-byte", "C05", "R-ENC", "compile_assert_type", "crates/bytecode/src/compiler.rs",
+     "                    self.push_op(op, &[value_register]);\n                    self.push_var_u32((*type_index).into());\n\n                    if span.is_some() {",
+     "                    self.push_op(op, &[value_register, u32::from(*type_index) as u8]);\n\n                    if span.is_some() {"),
+    ("borrow-new-callback-under-guard", "C06", "R-BORROW", "list::fill", "crates/runtime/src/core_lib/list.rs",
+     None, None),
+    ("iter-copy-clone", "C13", "R-ITER-COPY", "Take", "crates/runtime/src/core_lib/iterator/adaptors.rs",
+     "impl KotoIterator for Take {\n    fn make_copy(&self) -> Result<KIterator> {\n        let result = Self {\n            iter: self.iter.make_copy()?,",
+     "impl KotoIterator for Take {\n    fn make_copy(&self) -> Result<KIterator> {\n        let result = Self {\n            iter: self.iter.clone(),"),
+    ("iter-err-dropped", "C13", "R-ITER-ERR", "Take", "crates/runtime/src/core_lib/iterator/adaptors.rs",
+     None, None),
+    ("indent-class-changed", "C10", "R-INDENT", "", "crates/parser/src/parser.rs",
+     "            None => self.consume_token_and_error(ExpectedIndentation::WhileBody),",
+     "            None => self.consume_token_and_error(SyntaxError::UnexpectedToken),"),
+    ("indent-chain-stringified", "C10", "R-INDENT-CHAIN", "", "crates/koto/src/error.rs",
+     "            RuntimeError::CompileError(error) => Self::from(error),\n",
+     "            RuntimeError::CompileError(error) => Self::StringError(error.to_string()),\n"),
+    ("fmt-field-unread", "C11", "R-FMT-FIELDS", "", "crates/format/src/format.rs",
+     "    if let Some(precision) = options.precision {\n        result.push_str(&format!(\".{precision}\"));\n    }\n",
+     ""),
+    ("tc-flag-second-reader", "C16", "R-TC-FLAG", "compile_check_type", "crates/bytecode/src/compiler.rs",
+     "                self.push_span(type_node, ctx.ast);\n\n                let op = if *allow_null {\n                    Op::CheckOptionalType",
+     "                if self.settings.enable_type_checks {\n                    self.push_span(type_node, ctx.ast);\n                } else {\n                    self.push_span(type_node, ctx.ast);\n                    self.debug_info.push(self.bytes.len() as u32, self.span());\n                }\n\n                let op = if *allow_null {\n                    Op::CheckOptionalType"),
+    ("num-wrap-plain-add", "C01", "R-NUM-WRAP", "Add", "crates/runtime/src/types/number.rs",
+     "number_op!(Add, add, +, wrapping_add);", "number_op!(Add, add, +, saturating_add);"),
+    ("hasheq-bits", "C14", "R-HASHEQ", "KNumber", "crates/runtime/src/types/number.rs",
+     None, None),
+    ("map-order-swap-remove", "C14", "R-MAP-ORDER", "KMap::remove", "crates/runtime/src/types/map.rs",
+     None, None),
+    ("obj-default-ok-null", "C17", "R-OBJ-DEFAULTS", "index", "crates/runtime/src/types/object.rs",
+     "        unimplemented_error(\"@index\", self.type_string())", "        Ok(KValue::Null)"),
+    ("dispatch-wrong-key", "C17", "R-DISPATCH-REFS", "run_greater", "crates/runtime/src/vm.rs",
+     None, None),
+    ("serde-visit-unit-gone", "C20", "R-SERDE-KINDS", "", "crates/serde/src/deserialize.rs",
+     None, None),
+    ("unsafe-bounds-unvalidated", "C15", "R-UNSAFE-BOUNDS", "with_bounds", "crates/parser/src/string_slice.rs",
+     "        if self.data.get(new_bounds.clone()).is_some() {\n            try_from_range(&new_bounds)",
+     "        if new_bounds.end <= self.data.len() {\n            try_from_range(&new_bounds)"),
+    ("arc-cfg-branch-in-vm", "C19", "R-BUILD-DIFF", "next_register", "crates/runtime/src/vm.rs",
+     "    fn next_register(&self) -> u8 {\n        (self.registers.len() - self.register_base) as u8\n    }",
+     "    fn next_register(&self) -> u8 {\n        if cfg!(feature = \"arc\") {\n            return self.registers.len().saturating_sub(self.register_base) as u8;\n        }\n        (self.registers.len() - self.register_base) as u8\n    }"),
+    ("atomic-check-then-act", "C19", "R-ATOMIC", "list::pop", "crates/runtime/src/core_lib/list.rs",
+     None, None),
+    ("arith-unguarded-add", "C06", "R-ARITH", "expanded", "crates/runtime/src/core_lib/range.rs",
+     "                        Some(start.saturating_sub(n)),", "                        Some(start - n),"),
     ("det-collect-pending", "C05", "R-DET", "finalize_id_accesses", "crates/parser/src/parser.rs",
      "        self.ids_assigned_in_frame\n            .extend(self.pending_assignments.drain());",
      "        let drained: Vec<ConstantIndex> = self.pending_assignments.drain().collect();\n        self.ids_assigned_in_frame.extend(drained);"),
@@ -64,7 +114,16 @@ def sh(cmd, **kw):
 
 def main():
     want = sys.argv[1:]
-    muts = [m for m in MUTANTS if m[5] is not None and (not want or any(w in m[0] for w in want))]
+    prop = None
+    if "--property" in want:
+        i = want.index("--property")
+        prop = want[i + 1]
+        del want[i:i + 2]
+    muts = [m for m in MUTANTS if m[5] is not None and (not want or any(w in m[0] for w in want))
+            and (prop is None or m[1] == prop)]
+    if not muts:
+        print("selftest: ok=0 fail=0 skip=0 (no catalogued mutant for this selection)")
+        return 0
     scratch = tempfile.mkdtemp(prefix="kv_selftest_")
     wt = os.path.join(scratch, "repo")
     r = sh(f"git -C /repo worktree add --detach {wt} HEAD")
@@ -83,7 +142,7 @@ def main():
                 skip += 1
                 continue
             open(fp, "w").write(src.replace(old, new))
-            r = subprocess.run([os.path.join(VERIF, "check"), prop], env=env, stdout=subprocess.PIPE,
+            r = subprocess.run([os.path.join(VERIF, "check"), prop, "--tier", "quick"], env=env, stdout=subprocess.PIPE,
                                stderr=subprocess.STDOUT, text=True)
             open(fp, "w").write(src)
             hit = [l for l in r.stdout.splitlines() if f"rule={rule} " in l and fnsub in l]
